@@ -51,6 +51,10 @@ impl Hist {
     }
 }
 impl Group for Hist {
+    // a real server / real sockets with read timeouts: a failure counts if it shows again when the same case is re-run
+    fn timing_sensitive(&self) -> bool {
+        true
+    }
     fn name(&self) -> &'static str {
         "c17.hist"
     }
